@@ -111,9 +111,7 @@ func (s *streamHTTP) SendMsg(m interface{}) error {
 	}
 
 	cur := reply.ProtoReflect()
-	for _, fd := range s.method.resp {
-		cur = cur.Mutable(fd).Message()
-	}
+	cur = mutableMessage(cur, s.method.resp)
 	msg := cur.Interface()
 
 	contentType := s.accept
@@ -216,9 +214,7 @@ func (s *streamHTTP) decodeRequestArgs(args proto.Message) (int, error) {
 	}()
 
 	cur := args.ProtoReflect()
-	for _, fd := range s.method.body {
-		cur = cur.Mutable(fd).Message()
-	}
+	cur = mutableMessage(cur, s.method.body)
 	msg := cur.Interface()
 
 	c, err := s.getCodec(s.contentType, cur)
@@ -547,9 +543,7 @@ func AsHTTPBodyReader(stream grpc.ServerStream, msg proto.Message) (body io.Read
 	if name, want := cur.Descriptor().FullName(), s.method.desc.Input().FullName(); name != want {
 		return nil, fmt.Errorf("expected %s got %s", want, name)
 	}
-	for _, fd := range s.method.body {
-		cur = cur.Mutable(fd).Message()
-	}
+	cur = mutableMessage(cur, s.method.body)
 
 	if typ := cur.Descriptor().FullName(); typ != "google.api.HttpBody" {
 		return nil, fmt.Errorf("expected body type of google.api.HttpBody got %s", typ)
@@ -587,9 +581,7 @@ func AsHTTPBodyWriter(stream grpc.ServerStream, msg proto.Message) (body io.Writ
 	if name, want := cur.Descriptor().FullName(), s.method.desc.Output().FullName(); name != want {
 		return nil, fmt.Errorf("expected %s got %s", want, name)
 	}
-	for _, fd := range s.method.resp {
-		cur = cur.Mutable(fd).Message()
-	}
+	cur = mutableMessage(cur, s.method.resp)
 
 	if typ := cur.Descriptor().FullName(); typ != "google.api.HttpBody" {
 		return nil, fmt.Errorf("expected body type of google.api.HttpBody got %s", typ)
